@@ -655,10 +655,11 @@ func (e *kvElection) becomeFollower() bool {
 	if e.ctx != nil && !e.watcherRunning.Load() {
 		e.watcherRunning.Store(true)
 		e.wg.Add(1)
+		runCtx := e.ctx // read under e.mu: Start may replace e.ctx before the goroutine runs
 		go func() {
 			defer e.watcherRunning.Store(false)
 			defer e.wg.Done()
-			e.watchLoop(e.ctx)
+			e.watchLoop(runCtx)
 		}()
 	}
 	return wasLeader
